@@ -40,7 +40,12 @@ pub(crate) fn run() -> Result<(), Error> {
 
     let mut ps = ProcessState::init(env)?;
     let env2 = ps.env().clone();
-    let mut ptx = ProcessTransaction::new(&mut ps, TransactionBehavior::Deferred)?;
+    // is_dirty() may write (it forgets vanished targets) after having read, so
+    // take the write lock up front: a deferred transaction cannot be upgraded
+    // once another process has committed, and would fail with "database is
+    // locked" instead of waiting. Nothing is committed; the transaction is
+    // rolled back when it is dropped.
+    let mut ptx = ProcessTransaction::new(&mut ps, TransactionBehavior::Immediate)?;
     let cache: RefCell<HashSet<i64>> = RefCell::new(HashSet::new());
     let mut cb = DirtyCallbacksBuilder::new()
         .is_checked(|f, _| cache.borrow().contains(&f.id()))
